@@ -45,6 +45,8 @@ func offClass(off, size int64) string {
 		return "0"
 	case off == size:
 		return "=size"
+	case off >= 1<<40 && off > size:
+		return "far-beyond"
 	case off > size:
 		return ">size"
 	case off == size-1:
@@ -94,6 +96,15 @@ func c02Pairs(r *rand.Rand, size int64, nRandom int, full bool) [][2]int64 {
 				out = append(out, [2]int64{o, l})
 			}
 		}
+	}
+	// far beyond the object: nothing is stored there whatever sector arithmetic the view uses
+	far := FarOffsets()
+	for k := 0; k < 6; k++ {
+		o := far[r.Intn(len(far))]
+		if full {
+			o = far[(k*17+int(size))%len(far)]
+		}
+		out = append(out, [2]int64{o, []int64{1, 100, 2048, 70000}[r.Intn(4)]})
 	}
 	for i := 0; i < nRandom; i++ {
 		o := r.Int63n(size + 10)
